@@ -82,6 +82,21 @@ def try_replay(prop, ob, sections, sd, tier):
     """Find a concrete failing input for a failed obligation: first among the witness failures of this run
     (same tags), then by an extended search in the hinted family."""
     fams = ob.get("witness_families") or []
+    ce = ob.get("counterexample") or {}
+    if isinstance(ce, dict) and isinstance(ce.get("string"), str):
+        # a distinguishing string of a lexer obligation: run the shipped lexer and the g4 reference tokeniser on it
+        import subprocess
+        for text in (ce["string"], ce["string"] + " ", " " + ce["string"] + "\n"):
+            cj = {"family": "lexer_tokens", "class": "lexer/distinguishing-string", "input": {"text": text}}
+            try:
+                pr = subprocess.run([C.PY_REPO, "-m", "replay.run", "--prop", prop, "--case-json", json.dumps(cj)], cwd=C.VERIF, env=C.repo_env(),
+                                    stdout=subprocess.PIPE, stderr=subprocess.PIPE, timeout=120)
+                out = json.loads(pr.stdout.decode().strip().splitlines()[-1])
+            except Exception:      # noqa
+                break
+            if out.get("failed"):
+                return {"family": "lexer_tokens", "class": cj["class"], "input": cj["input"], "expected": out.get("expected"), "actual": out.get("actual"),
+                        "repro": "cd /verif && ./check %s --replay <this file>" % prop}
     for sec in sections:
         if sec.get("engine") != "witness":
             continue
